@@ -342,6 +342,16 @@ E3_TABLE = {
     ("problog.parser", "PrologParser.next_token", "RuntimeError"): "dispatch default: every entry of the action tables is a method returning a tuple (checked by C17/T1)",
     ("problog.pypl", "pl2py", "ValueError"): "type-dispatch default: engine terms are Constant, Term or int variables; None is replaced by negative ints before a body goal runs (eval_clause); no reaching input could be constructed",
     ("problog.pypl", "py2pl", "ValueError"): "type-dispatch default on Python values; in the user-facing closure it is only reached through list2term on values produced by the package itself",
+    ("problog.logic", "term2list", "ValueError"): "documented API contract (ValueError for a non-fixed list); every caller in the user-facing closure passes a fixed list or converts the error - see E3_CALLERS",
+}
+# frozen, confirmed call sites of helpers whose raise is in the table: caller -> why the raise cannot surface there
+E3_CALLERS = {
+    "term2list": {
+        "_builtin_subquery": "evidence argument checked by check_mode letter 'L' (fixed list)",
+        "_builtin_subquery_in_scope": "evidence argument checked by check_mode letter 'L' (fixed list)",
+        "_build_scope": "called only with ground terms (callers check 'g'/'L'); under _is_list a ground list is fixed",
+        "ClauseDB._predicate_list": "inside try/except ValueError -> GroundingError",
+    },
 }
 
 
@@ -429,6 +439,23 @@ def rule_e3(repo, col):
                 continue
             key = (m.name, f.qualname, cname)
             if key in E3_TABLE:
+                if f.qualname in E3_CALLERS:
+                    allowed = E3_CALLERS[f.qualname]
+                    okall = True
+                    for cf in funcs:
+                        for cc in cg.calls_in(cf):
+                            if isinstance(cc.func, ast.Name) and cc.func.id == f.qualname and any(g2 is f for g2 in cg.resolve(cf, cc)):
+                                if cf.qualname in allowed:
+                                    col.ok("E3", cf.module, cc, "confirmed caller of %s: %s" % (f.qualname, allowed[cf.qualname]), function=cf.qualname)
+                                elif cf is f:
+                                    pass
+                                else:
+                                    okall = False
+                                    col.fail("E3", cf.module, cc, "%s calls %s, which raises %s for malformed input, and this call site is not among the confirmed ones (%s): "
+                                             "the error would surface as an internal exception" % (cf.qualname, f.qualname, cname, ", ".join(sorted(allowed))), function=cf.qualname)
+                    if okall:
+                        col.ok("E3", m, r, "table: %s" % E3_TABLE[key])
+                    continue
                 col.ok("E3", m, r, "table: %s" % E3_TABLE[key])
                 continue
             if f.cls is not None and f.name not in called_attrs:
@@ -437,6 +464,242 @@ def rule_e3(repo, col):
             col.fail("E3", m, r, "user-facing function %s raises %s, which is not a ProbLogError: a program text that reaches this line crashes inference "
                      "with an internal Python exception" % (f.qualname, cname))
     col.floor("E3.non_problog_raises_examined", n, 4)
+
+
+CHECK_FUNCS = {"check_mode", "is_variable", "_is_var", "_is_nonvar", "_is_term", "_is_atom", "_is_list", "_is_fixed_list", "_is_string", "_is_number", "_is_integer",
+               "_is_float", "_is_constant", "_is_compare", "_is_object", "isinstance", "hasattr", "type"}
+DEREF_FUNCS = {"int", "float", "term2list", "list_elements"}
+
+
+def _first_check_line(f, param):
+    best = None
+    for n in walk_no_nested(f.node):
+        if isinstance(n, ast.Call) and dotted(n.func) in CHECK_FUNCS:
+            names = set()
+            for a in n.args:
+                for sub in ast.walk(a):
+                    if isinstance(sub, ast.Name):
+                        names.add(sub.id)
+            if param in names:
+                best = n.lineno if best is None else min(best, n.lineno)
+    return best
+
+
+def _derefs(cg, f, param, depth, seen):
+    """Does f dereference `param` (attribute access / numeric conversion / passing it to a function that does) before any type check of it?
+    Returns (line, description) or None."""
+    if depth < 0 or (id(f.node), param) in seen:
+        return None
+    seen = seen | {(id(f.node), param)}
+    chk = _first_check_line(f, param)
+    # re-binding makes the name something else
+    rebind = [n.lineno for n in walk_no_nested(f.node) if isinstance(n, ast.Name) and n.id == param and isinstance(n.ctx, ast.Store)]
+    limit = min([x for x in (chk, min(rebind) if rebind else None) if x is not None], default=None)
+    cands = []
+    for n in walk_no_nested(f.node):
+        if limit is not None and n.__dict__.get("lineno", 0) >= limit:
+            continue
+        if isinstance(n, ast.Attribute) and isinstance(n.value, ast.Name) and n.value.id == param and isinstance(n.ctx, ast.Load):
+            cands.append((n.lineno, "%s:%d %s reads %s" % (f.module.relpath, n.lineno, f.qualname, norm(n))))
+        elif isinstance(n, ast.Call):
+            d = dotted(n.func)
+            argnames = [a.id if isinstance(a, ast.Name) else None for a in n.args]
+            if d in DEREF_FUNCS and param in argnames:
+                cands.append((n.lineno, "%s:%d %s applies %s() to it" % (f.module.relpath, n.lineno, f.qualname, d)))
+            elif param in argnames and d not in CHECK_FUNCS:
+                for g in cg.resolve(f, n):
+                    gp = g.params
+                    off = 1 if (g.cls is not None and gp and gp[0] in ("self", "cls")) else 0
+                    idx = argnames.index(param) + off
+                    if idx < len(gp):
+                        sub = _derefs(cg, g, gp[idx], depth - 1, seen)
+                        if sub is not None:
+                            cands.append((n.lineno, "%s:%d %s passes it to %s -> %s" % (f.module.relpath, n.lineno, f.qualname, g.qualname, sub[1])))
+                            break
+    if not cands:
+        return None
+    return sorted(cands)[0]
+
+
+def rule_e5(repo, col):
+    cg = CallGraph(repo)
+    impls = bi.implementations(repo)
+    n = 0
+    for fname in sorted(impls):
+        row = impls[fname]
+        f = row.func
+        a = f.node.args
+        nd = len(a.args) - len(a.defaults)
+        params = [x.arg for i, x in enumerate(a.args) if i < nd]
+        for p_ in params:
+            n += 1
+            d = _derefs(cg, f, p_, 3, frozenset())
+            if d is None:
+                col.ok("E5", f.module, f.node, "argument %s of %s is type-checked before it is dereferenced" % (p_, fname), construct="def %s: argument %s" % (fname, p_), function=fname)
+            else:
+                col.fail("E5", f.module, f.node, "builtin %s/%s dereferences its argument %r before any type check (check_mode / is_variable / isinstance): an unbound variable is an int here, "
+                         "so the call crashes with AttributeError/TypeError instead of a CallModeError (%s)" % (row.name, row.arity, p_, d[1]),
+                         construct="def %s: argument %s" % (fname, p_), function=fname)
+    col.floor("E5.builtin_arguments", n, 120)
+
+
+def rule_e6(repo, col):
+    """registry look-ups on user-supplied names"""
+    init = repo.module("problog")
+    nullable = {}
+    raising = {}
+    for name, f in init.functions.items():
+        for r in walk_no_nested(f.node):
+            if isinstance(r, ast.Return) and r.value is not None:
+                v = r.value
+                if isinstance(v, ast.Call) and isinstance(v.func, ast.Attribute) and v.func.attr == "get" and isinstance(v.func.value, ast.Name) and v.func.value.id.startswith("_") \
+                        and (len(v.args) == 1 or (len(v.args) == 2 and isinstance(v.args[1], ast.Constant) and v.args[1].value is None)):
+                    nullable[name] = (f, r)
+                if isinstance(v, ast.Subscript) and isinstance(v.value, ast.Name) and v.value.id.startswith("_") and isinstance(v.slice, ast.Name):
+                    raising[name] = (f, r)
+    if not nullable and not raising:
+        raise AnalysisError("problog/__init__.py: registry look-up functions not found")
+    cg = CallGraph(repo)
+    ef = ExcFlow(repo, cg)
+    funcs = _user_facing_functions(repo, cg)
+    n = 0
+    for f in funcs:
+        m = f.module
+        parents = m.parents()
+        for c in walk_no_nested(f.node):
+            if not isinstance(c, ast.Call):
+                continue
+            d = dotted(c.func)
+            if d in nullable:
+                n += 1
+                par = parents.get(c)
+                direct = isinstance(par, ast.Attribute) and par.value is c
+                col.decide("E6", m, c, not direct, "result of %s is not dereferenced directly" % d,
+                           "%s() returns None for a name that is not registered (it uses dict.get), and the result is dereferenced immediately (%s): a user-supplied unknown name "
+                           "crashes with AttributeError" % (d, norm(par)[:70] if par is not None else ""), function=f.qualname)
+            if d in raising:
+                n += 1
+                # the name argument must be None-able default or validated / the call must be under except KeyError
+                caught = ef.caught_by(m, c, "KeyError") is not None
+                kw = [k for k in c.keywords if k.arg == "name"]
+                arg = kw[0].value if kw else (c.args[0] if c.args else None)
+                validated = False
+                if isinstance(arg, ast.Name):
+                    for t in walk_no_nested(f.node):
+                        if isinstance(t, ast.Compare) and isinstance(t.ops[0], (ast.In, ast.NotIn)) and norm(t.left) == arg.id and t.lineno <= c.lineno:
+                            validated = True
+                col.decide("E6", m, c, caught or validated or arg is None, "registry look-up %s guarded" % d,
+                           "%s() indexes its registry with the given name (KeyError for an unknown one); here the name comes from the program text and is neither validated "
+                           "nor is the KeyError converted" % d, function=f.qualname)
+    col.floor("E6.registry_lookups", n, 2)
+
+
+ARITY_TYPES = {"And", "Or", "Not", "Clause", "AnnotatedDisjunction"}
+E7_TABLE = {
+    ("ClauseDB._compile", "new_arg.args[0]"): "new_arg is the temporary '_'(X) wrapper the compiler itself built two statements earlier (a.functor == '_')",
+    ("ClauseDB.iter_raw", "node.functor.args[0]"): "database-internal node produced by _compile, not program text",
+}
+
+
+# sites whose term was validated by ClauseDB._predicate_list (every element is name/arity, or 'as'(name/arity, alias) of arity 2)
+E7_VALIDATED = {
+    ("ClauseDB.use_module", "pred.args[0]"): "pred iterates self._predicate_list(...): 'as'/2 or name/arity",
+    ("ClauseDB.use_module", "pred.args[1]"): "pred iterates self._predicate_list(...): 'as'/2 or name/arity",
+    ("ClauseDB._create_alias", "pred.args[0]"): "callers pass elements of lists produced by _predicate_list (module export/import lists) or by load_external_module",
+    ("ClauseDB._create_alias", "pred.args[1]"): "callers pass elements of lists produced by _predicate_list (module export/import lists) or by load_external_module",
+}
+
+
+def _validator_ok(c):
+    """the precondition of the E7_VALIDATED rows: _predicate_list exists, checks the indicator shape and raises a GroundingError otherwise, and use_module/add_all go through it"""
+    v = c.methods.get("_predicate_list")
+    if v is None:
+        return False
+    src = norm(v.node)
+    shape = ("signature != '//2'" in src or ("functor != '/'" in src and "arity != 2" in src)) and "raise GroundingError" in src and "arity == 2" in src
+    users = 0
+    for name in ("use_module", "add_all"):
+        f = c.methods.get(name)
+        if f is not None and "self._predicate_list(" in norm(f.node):
+            users += 1
+    um = c.methods.get("use_module")
+    loops_ok = um is not None and all("self._predicate_list(" in norm(l.iter) for l in ast.walk(um.node) if isinstance(l, ast.For) and isinstance(l.target, ast.Name) and l.target.id == "pred")
+    return shape and users == 2 and loops_ok
+
+
+def _arity_known(facts, base, k):
+    import re as _re
+
+    for src, truth in facts:
+        if not truth:
+            continue
+        mm = _re.match(r"^%s\.arity (==|>=|>) (\d+)$" % _re.escape(base), src)
+        if mm:
+            op, nn = mm.group(1), int(mm.group(2))
+            if (op == "==" and nn > k) or (op == ">=" and nn > k) or (op == ">" and nn >= k):
+                return "fact %s" % src
+        mm = _re.match(r"^len\(%s\.args\) (==|>=|>) (\d+)$" % _re.escape(base), src)
+        if mm:
+            op, nn = mm.group(1), int(mm.group(2))
+            if (op == "==" and nn > k) or (op == ">=" and nn > k) or (op == ">" and nn >= k):
+                return "fact %s" % src
+        mm = _re.match(r"^%s\.signature == '.*/(\d+)'$" % _re.escape(base), src)
+        if mm and int(mm.group(1)) > k:
+            return "fact %s" % src
+        mm = _re.match(r"^isinstance\(%s, (\w+)\)$" % _re.escape(base), src)
+        if mm and mm.group(1) in ARITY_TYPES:
+            return "fact %s" % src
+        mm = _re.match(r"^type\(%s\) (is|==) (\w+)$" % _re.escape(base), src)
+        if mm and mm.group(2) in ARITY_TYPES:
+            return "fact %s" % src
+    return None
+
+
+def rule_e7(repo, col):
+    from .. import cfg as cfgmod
+
+    n = 0
+    for mn, cname in (("problog.clausedb", "ClauseDB"), ("problog.engine", "ClauseDBEngine")):
+        c = repo.cls(mn, cname)
+        m = c.module
+        for f in c.methods.values():
+            sites = [x for x in walk_no_nested(f.node) if isinstance(x, ast.Subscript) and isinstance(x.value, ast.Attribute) and x.value.attr == "args"
+                     and isinstance(x.slice, ast.Constant) and isinstance(x.slice.value, int) and isinstance(x.ctx, ast.Load)]
+            if not sites:
+                continue
+            g = cfgmod.build(f.node)
+            facts = cfgmod.available_facts(g)
+            reported = set()
+            for sub in sorted(sites, key=lambda x: (x.lineno, x.col_offset)):
+                base = norm(sub.value.value)
+                k = sub.slice.value
+                n += 1
+                node = g.node_containing(sub)
+                st = facts.get(node.id) if node is not None else None
+                if st is None:
+                    col.ok("E7", m, sub, "unreachable", function=f.qualname)
+                    continue
+                why = _arity_known(st, base, k)
+                if why:
+                    col.ok("E7", m, sub, "arity known: %s" % why, function=f.qualname)
+                    continue
+                key = (f.qualname, norm(sub))
+                if key in E7_TABLE:
+                    col.ok("E7", m, sub, "table: %s" % E7_TABLE[key], function=f.qualname)
+                    continue
+                if key in E7_VALIDATED and _validator_ok(c):
+                    col.ok("E7", m, sub, "validated: %s" % E7_VALIDATED[key], function=f.qualname)
+                    continue
+                # an earlier access of the same or a higher index on every path: the first one is the site to report
+                earlier = any(("%s.args[" % base) in src for src, _ in st)
+                if earlier or (base, ">=%d" % k) in reported:
+                    col.ok("E7", m, sub, "an earlier access of %s.args[...] on every path is the reported site" % base, function=f.qualname,
+                           construct="%s (after earlier access)" % norm(sub))
+                    continue
+                reported.add((base, ">=%d" % k))
+                col.fail("E7", m, sub, "%s indexes %s.args[%d] on a path where the arity of %s is not established (facts: %s): a term of smaller arity written in the program "
+                         "raises IndexError instead of a ProbLog error" % (f.qualname, base, k, base, sorted("%s=%s" % x for x in st if base in x[0]) or "none"), function=f.qualname)
+    col.floor("E7.constant_argument_indexes", n, 15)
 
 
 def run(repo, col):
@@ -448,3 +711,9 @@ def run(repo, col):
     rule_e2(repo, col)
     rule_e3(repo, col)
     rule_e4(repo, col)
+    col.rule("E5", "builtin arguments are type-checked before they are dereferenced (interprocedural, depth 3)")
+    col.rule("E6", "registry look-ups on user-supplied names are guarded")
+    col.rule("E7", "constant argument index only after the arity is known (ClauseDB / ClauseDBEngine)")
+    rule_e5(repo, col)
+    rule_e6(repo, col)
+    rule_e7(repo, col)
